@@ -115,7 +115,9 @@ fn mecab_case() -> BoxedStrategy<MecabCase> {
                 let le = ref_expand(&templates[p].0, 'L', &right_ids[pick(b, right_ids.len())], 0);
                 let re = ref_expand(&templates[p].1, 'R', &left_ids[pick(c, left_ids.len())], 0);
                 let text = match (kind, le, re) {
-                    (0, _, _) => format!("B{p}:never/B{p}:seen"), // unrealisable
+                    (0, _, _) => format!("B{p}:never/B{p}:seen"), // unrealisable on both sides
+                    (3, Some(l), _) => format!("{l}/B{p}:never"),  // known left expansion, unknown right expansion
+                    (4, _, Some(r)) => format!("B{p}:never/{r}"),  // unknown left expansion, known right expansion
                     (1, Some(l), _) => format!("{l}/BOS/EOS"),     // EOS context (ignored for non-zero pairs)
                     (2, _, Some(r)) => format!("BOS/EOS/{r}"),
                     (_, Some(l), Some(r)) => format!("{l}/{r}"),
@@ -304,7 +306,7 @@ pub fn run(opts: &Opts) -> Report {
     ];
     let a = Conversion;
     crate::props::committed_replays(&a, opts, &mut rep);
-    run_sub(&a, opts, opts.tier.pick(6000, 120_000), &mut rep);
+    run_sub(&a, opts, opts.tier.pick(20_000, 300_000), &mut rep);
     rep
 }
 
